@@ -109,6 +109,7 @@ def crash_descriptor(crash):
         kind = 'ubsan:' + msg[:80]
     if crash.get('timeout'):
         kind = 'timeout'
+        text = text[text.find('ORACLE-TIMEOUT'):] if 'ORACLE-TIMEOUT' in text else ''
     if kind == 'unknown':
         m = re.search(r"terminate called after throwing an instance of '([^']+)'", text)
         if m:
